@@ -8,9 +8,10 @@
 (***************************************************************************)
 EXTENDS Autograd
 
-MC_LeafVals == {LitT(<<2, 2>>, <<1, -2, 0, 3>>), LitT(<<1, 2>>, <<5, 7>>)}
+MC_LeafVals == {LitT(<<2, 2>>, <<1, -2, 0, 3>>)}
 MC_UnOps == {<<"slice", [index |-> <<<<0, 1>>>>]>>, <<"slice", [index |-> <<<<0, 0>>, <<1, 2>>>>]>>,
              <<"reshape", [shape |-> <<4>>]>>, <<"reshape", [shape |-> <<2, 2>>]>>, <<"slice", [index |-> <<>>]>>, <<"scale", [k |-> One]>>, <<"broadcast", [shape |-> <<2, 2>>]>>, <<"broadcast", [shape |-> <<2, 1, 2>>]>>}
+MC_CtorShapes == {<<"full", <<1, 2>>>>}       \* Full / Zeros / Ones take a caller-owned dimension list (they share one code path)
 MC_BinOps == {<<"patch", [index |-> <<<<1, 2>>>>]>>, <<"concat", [dim |-> 0]>>}
 Bounded == TRUE
 =============================================================================
